@@ -33,7 +33,7 @@ static void run_case(std::ostream& os, uint64_t s0, long long id, const std::str
   guarded(os, what, 120, [&](std::ostream& o) { run_case_body(o, s0, id, fam, S, C, emb, npts, cfg, reunion, nexec); });
   nexec += ((cfg == "lite" || cfg == "batchlite") ? 16 : 64) * (cfg == "notree" ? 1 : 2);   // executions happen in the child; count nominally
 }
-static bool g_gpcert = false;
+static bool g_gpcert = false; static std::vector<int> g_cts, g_frs;
 static void run_case_body(std::ostream& os, uint64_t s0, long long id, const std::string& fam, const Paths64& S, const Paths64& C,
                      const Emb& emb, int npts, const std::string& cfg, bool reunion, long long& nexec) {
   Paths64 all = S; all.insert(all.end(), C.begin(), C.end());
@@ -48,6 +48,7 @@ static void run_case_body(std::ostream& os, uint64_t s0, long long id, const std
   std::set<int> reunioned;
   std::vector<int> cts = {1, 2, 3, 4}, frs = {0, 1, 2, 3}, pcs = {0, 1}, rss = {0, 1};
   if (cfg == "lite" || cfg == "batchlite") { pcs = {0}; rss = {0}; }
+  if (!g_cts.empty()) { cts.assign(g_cts.begin(), g_cts.end()); } if (!g_frs.empty()) { frs.assign(g_frs.begin(), g_frs.end()); }
   bool first = true; const bool batch = cfg == "batch" || cfg == "batchlite"; std::vector<std::string> xs;
   PolyTree64 tree;   // ONE tree object reused for every tree execution of the case (Execute must clear it itself)
   auto exec_ev = [&](int ct, int fr, int pc, int rs, int tree, bool ok, int k) {
@@ -100,6 +101,7 @@ static int cmd_bool(const Args& a) {
   auto emit = [&](Paths64 S, Paths64 C) { if (mul != 1) { for (auto* ps : {&S, &C}) for (auto& p : *ps) for (auto& q : p) { q.x *= mul; q.y *= mul; } } for (long long e : embs) run_case(os, s0, ++ncase, fam, S, C, emb_table()[e], npts, cfg, reunion, nexec); };
   Paths64 S, C;
   g_gpcert = argi(a, "gpcert", 0) != 0;
+  for (long long v : argl(a, "cts", "")) g_cts.push_back((int)v); for (long long v : argl(a, "frs", "")) g_frs.push_back((int)v);
   if (fam == "gps") { const int64_t off = argi(a, "off", 0);   // off: shift the lattice (negative coordinates: truncation towards zero behaves differently)
     for (long long i = 0; i < n; ++i) if (gen_gps(r, R, (int)argi(a, "maxpaths", 2), (int)argi(a, "maxv", 6), S, C)) { if (off) for (auto* ps : {&S, &C}) for (auto& p : *ps) for (auto& q : p) { q.x += off; q.y += off; } emit(S, C); } }
   else if (fam == "ladder") { for (int ws = -3; ws <= 3; ++ws) for (int wc = -3; wc <= 3; ++wc) for (int d = 0; d < 2; ++d) { gen_ladder(ws, wc, d, S, C); emit(S, C); } }
